@@ -146,14 +146,26 @@ func runSession(sc script, rnd *rand.Rand) (*sessionResult, error) {
 			outMu.Unlock()
 		}})
 	res := &sessionResult{rec: rec}
+	hung := false
 	call := func(kind string, data []byte, f func() (rt.M, error)) {
 		rec.ev("Call", rt.M{"kind": kind, "data": fmt.Sprintf("%x", data)})
-		extra, err := f()
-		m := rt.M{"kind": kind, "err": errStr(err)}
-		for k, v := range extra {
-			m[k] = v
+		type ret struct {
+			extra rt.M
+			err   error
 		}
-		rec.ev("Ret", m)
+		c := make(chan ret, 1)
+		go func() { e, err := f(); c <- ret{e, err} }()
+		select {
+		case x := <-c:
+			m := rt.M{"kind": kind, "err": errStr(x.err)}
+			for k, v := range x.extra {
+				m[k] = v
+			}
+			rec.ev("Ret", m)
+		case <-time.After(opDeadline):
+			rec.ev("CallHang", rt.M{"kind": kind}) // no action of the specification explains this line
+			hung = true
+		}
 	}
 	snap := func() (rt.M, error) {
 		b, err := s.srv.Snapshot()
@@ -167,6 +179,9 @@ func runSession(sc script, rnd *rand.Rand) (*sessionResult, error) {
 	var pending chan struct{}
 	aborted := false
 	for _, o := range sc.ops {
+		if hung {
+			return res, nil
+		}
 		switch o.k {
 		case "send":
 			rec.ev("Send", rt.M{"item": encMsg(o.m)})
